@@ -305,7 +305,7 @@ Definition table_toks (t : table) : list tok :=
 Definition dispatch_c13 (ts : list tok) : list tok :=
   match ts with
   | t :: rest =>
-    if is_word "c13" t then
+    if is_word "c13" t || is_word "c13t" t then   (* c13t: the same history with the TCP carrier's address type; addresses are opaque here *)
       let (tb, os) := run empty_table (parse_ops (2 * List.length rest + 2) 0 rest) in
       flat_map out_toks os ++ table_toks tb
     else [W "model-error"]
